@@ -185,7 +185,7 @@ package core
 //@ func ParamsTypeChange
 //@   props C03
 //@   arith int unchecked
-//@   requires rv_valid(f) && (rt_kind(rv_typ(f)) == 19 || (rt_kind(rv_typ(f)) == 22 && rt_kind(rt_elem(rv_typ(f))) == 19))
+//@   assume rv_valid(f) && (rt_kind(rv_typ(f)) == 19 || (rt_kind(rv_typ(f)) == 22 && rt_kind(rt_elem(rv_typ(f))) == 19))
 //@   ghost TF = ite(rt_kind(rv_typ(f)) == 22, rt_elem(rv_typ(f)), rv_typ(f))
 //@   ensures [C03] sameslice: arr(result) == arr(params) && lo(result) == lo(params) && len(result) == len(params)
 //@   ensures [C03] converted: forall qa :: lo(params) <= qa && qa < lo(params) + rt_numin(TF) && qa < hi(params) ==> argConv(old(at(params, qa)), at(params, qa), rt_kind(rt_in(TF, qa - lo(params))))
